@@ -50,7 +50,7 @@ CHECKS = {
         "model_checking",
         "exhaustive enumeration of dependency shapes of the connect phase, each executed through the real Composition.connect under all component listing orders and link creation orders; least-fixpoint reference of derivable exchange items and a per-call status rule as oracles; call cap for termination",
         "Every shape of metadata / initial-data dependency within the bound is run under every schedule the iterative connect can take (all listing and link orders); the outcome must be success with complete infos, initial publications at composition start and own start and exact initial values, or a circular-coupling error naming exactly the components the fixpoint model cannot complete; every single connect call's reported status is checked against what was observably exchanged.",
-        "Trusted: fixpoint model and harness nodes in harness/cnode.py; <=3 components (<=2 slots per side), offsets {0,1,2}; the separate helper-layer search of single connect calls with scripted peers described in DESIGN.md is not built (the per-call rule is checked on every call inside the compositions instead).",
+        "Trusted: fixpoint model and harness nodes in harness/cnode.py; <=3 components (<=2 slots per side), offsets {0,1,2}; helper layer: <=3 slots (quick) / <=4 (thorough) on one component with scripted peers.",
         "DESIGN.md section 3 (engine B) and section 4, C06",
     ),
     "C07": (
